@@ -4,6 +4,8 @@ package c18
 import (
 	"encoding/json"
 	"fmt"
+	"os"
+	"path/filepath"
 	"sort"
 	"strings"
 	"testing"
@@ -21,7 +23,7 @@ import (
 )
 
 type Op struct {
-	Kind string `json:"kind"` // good | bad | dup | process | read
+	Kind string `json:"kind"` // good | bad | bad-disk | dup | process | read | getmodule
 	Idx  int    `json:"idx,omitempty"`
 }
 
@@ -235,6 +237,12 @@ func check(c Case) (o ev.Outcome) {
 	sawBad, sawGoodSinceProcess := false, false
 	var last *result
 	lastBadKind := ""
+	diskDir := ""
+	defer func() {
+		if diskDir != "" {
+			os.RemoveAll(diskDir)
+		}
+	}()
 	ev.Guard(&o, "history", func() {
 		ms := yang.NewModules()
 		for i, op := range c.Ops {
@@ -278,6 +286,30 @@ func check(c Case) (o ev.Outcome) {
 					return
 				}
 				sawBad, lastBadKind = true, badKind(src.Name)
+			case "bad-disk":
+				// the bad text lies in a directory, beside files of every text of the pool, and is read from there
+				// (Modules.Read with its path): the load fails, and what the set fetches afterwards - nothing, no
+				// directory was ever put on the search path - is what a set that never saw the file fetches
+				if op.Idx < 0 || op.Idx >= len(c.Bad) || c.Hostile {
+					continue
+				}
+				if diskDir == "" {
+					d, err := ev.MkdirTemp("verif-c18-")
+					if err != nil {
+						panic(err)
+					}
+					diskDir = d
+					for _, g := range c.Good {
+						os.WriteFile(filepath.Join(diskDir, g.Name), []byte(g.Text), 0o644)
+					}
+				}
+				src := c.Bad[op.Idx]
+				os.WriteFile(filepath.Join(diskDir, src.Name), []byte(src.Text), 0o644)
+				if err := ms.Read(filepath.Join(diskDir, src.Name)); err == nil {
+					o.OutOfClaim = "a text meant to be rejected was accepted (harness)"
+					return
+				}
+				sawBad, lastBadKind = true, badKind(src.Name)+"/read-from-a-directory"
 			case "getmodule":
 				// the one-call door: GetModule processes whatever is loaded and hands out the module's tree; it
 				// must give what a fresh set with the same accepted texts gives through the same door
@@ -686,7 +718,11 @@ func gen(t *rapid.T) Case {
 				c.Ops = append(c.Ops, Op{Kind: "process"})
 			}
 		case 3, 4:
-			c.Ops = append(c.Ops, Op{Kind: "bad", Idx: rapid.IntRange(0, len(c.Bad)-1).Draw(t, "bad-text")})
+			kind := "bad"
+			if rapid.IntRange(0, 3).Draw(t, "bad-text-read-from-a-directory") == 0 {
+				kind = "bad-disk"
+			}
+			c.Ops = append(c.Ops, Op{Kind: kind, Idx: rapid.IntRange(0, len(c.Bad)-1).Draw(t, "bad-text")})
 		case 5:
 			c.Ops = append(c.Ops, Op{Kind: "dup", Idx: rapid.IntRange(0, 7).Draw(t, "dup-of")})
 		case 6:
@@ -708,7 +744,7 @@ func TestCheck(t *testing.T) {
 	ev.Run(t, ev.Spec[Case]{
 		ID:    "C18",
 		Level: "exploration",
-		Rule: "operation histories of 3-17 steps on one module set: load(next text of a pool of mutually consistent single-(sub)module texts from the schema model - a third of the pools also hold 2-3 revisions of one module (a quarter of these families without any typedef and alone in the pool; with a submodule in half, whose include the latest revision may drop while defining the submodule's identity itself) with a base module and modules importing the family with and without revision-date, reaching its typedef, grouping and identity through a drawn selection of shapes (typedef chains, union typedefs, nested and inline unions, scoped typedefs, rpc input/output, choice, notification, augments); the family texts come first in two thirds of these pools (and in a third of the family pools a scripted opening loads all family texts but one, processes, then loads the last and processes again) - in a random order so that imports and includes are often not yet loaded and later revisions arrive after a processing run; a fifth of the pools consist of the wrong, cyclic and mutated texts of C01's generators, where a pool text rejected at load counts as a failed load), load(bad text: syntax error; module or submodule rejected by a later statement after an inner node with a typedef was already built; a duplicate of a loaded text), process, read (accessors and path lookups that create rpc input/output on demand), getmodule (Modules.GetModule of a loaded name, compared with the same call on a fresh set). " +
+		Rule: "operation histories of 3-17 steps on one module set: load(next text of a pool of mutually consistent single-(sub)module texts from the schema model - a third of the pools also hold 2-3 revisions of one module (a quarter of these families without any typedef and alone in the pool; with a submodule in half, whose include the latest revision may drop while defining the submodule's identity itself) with a base module and modules importing the family with and without revision-date, reaching its typedef, grouping and identity through a drawn selection of shapes (typedef chains, union typedefs, nested and inline unions, scoped typedefs, rpc input/output, choice, notification, augments); the family texts come first in two thirds of these pools (and in a third of the family pools a scripted opening loads all family texts but one, processes, then loads the last and processes again) - in a random order so that imports and includes are often not yet loaded and later revisions arrive after a processing run; a fifth of the pools consist of the wrong, cyclic and mutated texts of C01's generators, where a pool text rejected at load counts as a failed load), load(bad text: syntax error; module or submodule rejected by a later statement after an inner node with a typedef was already built; a duplicate of a loaded text; a quarter of the bad texts are read with Modules.Read from a directory that also holds files of every text of the pool), process, read (accessors and path lookups that create rpc input/output on demand), getmodule (Modules.GetModule of a loaded name, compared with the same call on a fresh set). " +
 			"Oracle (model = list of accepted good texts): after every process the error list and, when it is empty, the complete dump (trees of all modules and submodules with types, attributes and identity value lists) equal those of a fresh set into which exactly the accepted texts were loaded in the same order and processed once; two consecutive process runs give equal results; every bad load returns an error. " +
 			"Non-trivial = a process after a failed load, or a process after a load that followed an earlier process; distinct by (texts, operation sequence)",
 		Assumptions: []string{
